@@ -254,6 +254,23 @@ type Unit struct {
 	// not run concurrently with another unit in the same process.
 	Serial bool
 	Weight int // relative cost, for balancing shards (0 = 1)
+	// Procs, when non-zero, is the GOMAXPROCS setting the unit runs under (serial units only): the number of
+	// processors is an answer of the environment, and code may take another path when it is greater than one.
+	Procs int
+}
+
+// WithProcs returns, for every unit whose name satisfies match, a copy that runs under GOMAXPROCS=procs.
+func WithProcs(us []Unit, procs int, match func(name string) bool) []Unit {
+	var out []Unit
+	for _, u := range us {
+		if u.Serial && match(u.Name) {
+			c := u
+			c.Name = fmt.Sprintf("%s/procs=%d", u.Name, procs)
+			c.Procs = procs
+			out = append(out, c)
+		}
+	}
+	return out
 }
 
 // Harness is the set of units of one property.
